@@ -19,3 +19,9 @@ Definition full_coverage (H W : Z) (covered joint : Z -> Z -> bool) (kh kw : Z) 
    its validity with partial masking on *)
 Definition partial_valid (H W : Z) (covered joint : Z -> Z -> bool) (kh kw : Z) (pr pc : Z -> Z) (r c : Z) : bool :=
   full_coverage H W covered joint kh kw (pr r) (pc c).
+
+(* The same erosion computed on one block: the block is the frame [r0, r0 + Hb) x [c0, c0 + Wb) of the processing grid and the
+   erosion's constant border (value 0) is the block's own edge. *)
+Definition inbf (r0 c0 Hb Wb u v : Z) : bool := (r0 <=? u) && (u <? r0 + Hb) && (c0 <=? v) && (v <? c0 + Wb).
+Definition erode_blk (r0 c0 Hb Wb : Z) (m : Z -> Z -> bool) (kh kw : Z) (i j : Z) : bool :=
+  forallb (fun p => inbf r0 c0 Hb Wb (fst p) (snd p) && m (fst p) (snd p)) (ewin kh kw i j).
